@@ -23,3 +23,17 @@ package httpp
 //@   ensures [echo-or-star] result1 ==> (result0 == origin && originOK() && exists(k, 0, len(allowOrigins), allows(k))) || (result0 == "*" && exists(k, 0, len(allowOrigins), allowOrigins[k] == "*"))
 //@   ensures [allowed-origin-is-echoed] originOK() && exists(k, 0, len(allowOrigins), allows(k)) ==> result1 && result0 == origin
 //@   ensures [star-when-configured] len(allowOrigins) != 0 && (origin == "" || (originOK() && !exists(k, 0, len(allowOrigins), allows(k)))) && exists(k, 0, len(allowOrigins), allowOrigins[k] == "*") ==> result1 && result0 == "*"
+
+// C34: HTTP Authorization headers yield the 'Bearer user:pass' credentials or the bearer token of the first
+// Bearer header, and otherwise the Basic credentials, exactly.
+
+//@ func Credentials
+//@   property C34
+//@   def hs() []string = h.Header["Authorization"]
+//@   def bearer(k int) bool = hasPrefix(hs()[k], "Bearer ")
+//@   def rest(k int) string = hs()[k][7:]
+//@   loop 1 invariant 0 <= _i && _i <= len(hs()) && forall(k, 0, _i, !bearer(k)) && c != nil && fresh(c) && c.User == "" && c.Pass == "" && c.Token == ""
+//@   ensures [fresh-result] result != nil && fresh(result)
+//@   ensures [bearer-user-pass] forall(k, 0, len(hs()), bearer(k) && forall(j, 0, k, !bearer(j)) && splitCount(rest(k), ":") == 2 ==> result.User == splitPart(rest(k), ":", 0) && result.Pass == splitPart(rest(k), ":", 1) && result.Token == "")
+//@   ensures [bearer-token] forall(k, 0, len(hs()), bearer(k) && forall(j, 0, k, !bearer(j)) && splitCount(rest(k), ":") != 2 ==> result.Token == rest(k) && result.User == "" && result.Pass == "")
+//@   ensures [basic-otherwise] forall(k, 0, len(hs()), !bearer(k)) ==> result.User == basicUser(h) && result.Pass == basicPass(h) && result.Token == ""
